@@ -25,9 +25,19 @@
    so the former _partial theorems were vacuous.  The depth conditions are encoding/json's nesting
    limit of 10000, which counts the envelope: a value nested 9999 deep is marshalled and then rejected
    inside the message that carries it (c13_nesting_limit_counts_envelope_error_data, c13_nesting_limit_counts_envelope_batch); hence the batch theorem
-   asks for msg_rt_at 1 (members sit one container deep). *)
+   asks for msg_rt_at 1 (members sit one container deep).
+
+   Null ids and null params (wire/WireMore.v).  Every server reply to an invalid or id-less member
+   carries "id":null and a client whose params value marshals to null writes "params":null; msg_ok
+   and msg_rt exclude both.  The domains msg_ok' (id_ok' i := i = null_bytes \/ id_ok i) and
+   msg_rt_at' (id null / string / number literal; params absent, null, or an array / object value)
+   admit them: c13_single_line_null_ids, c13_parse_back_null_ids, c13_parse_back_batch_null_ids.
+   The member parser keeps the null id (j_id = "null"), fixID reads it as absent (pr_id = [], the
+   message counts as a notification when it is a request); null params are read as absent by the
+   member parser: the message denoted is canon (norm m). *)
 From Coq Require Import List NArith ZArith Bool.
-From JV Require Import Bytes Json JsonProofs JsonPrint Msg Wire WireProofs WireSpecs.
+From JV Require Import Bytes Json JsonProofs JsonPrint JsonTree JsonEq Msg Wire WireProofs WireSpecs WireMore WireLink WireBridge.
+From JV Require SrvModel SrvLemmas CliModel CliLemmas ErrsMore.
 Import ListNotations.
 Local Open Scope N_scope.
 
@@ -163,3 +173,223 @@ Theorem c13_flags_agree : forall (s : bytes) (batch : bool) (raws : list bytes),
        In e (allowed_errs r) /\ (we_code e = ParseError \/ we_code e = InvalidRequest)).
 Proof. exact flags_agree. Qed.
 Print Assumptions c13_flags_agree.
+
+(* -- null ids, null params ------------------------------------------------------------------ *)
+
+Theorem c13_single_line_null_ids : forall (batch : bool) (ms : list jmsg), Forall msg_ok' ms ->
+  exists b, enc_msgs batch ms = Some b /\ (forall c, In c b -> 32 <= c) /\ valid_utf8 b = true.
+Proof. exact single_line_msgs'. Qed.
+Print Assumptions c13_single_line_null_ids.
+
+Theorem c13_parse_back_null_ids : forall (m : jmsg) (b : bytes), msg_rt' m -> enc_msg m = Some b ->
+  parse_member b = canon (norm m) /\ parse_msgs b = InMsgs false [canon (norm m)] /\
+  parse_requests b = Parsed [to_parsed (canon (norm m))] /\
+  j_id (parse_member b) = j_id m /\
+  (j_id m = null_bytes -> pr_id (to_parsed (parse_member b)) = [] /\
+                          is_notification (parse_member b) = is_req_or_notif (parse_member b)) /\
+  (j_params m = null_bytes -> j_params (parse_member b) = []).
+Proof. exact parse_back'. Qed.
+Print Assumptions c13_parse_back_null_ids.
+
+Theorem c13_parse_back_batch_null_ids : forall (batch : bool) (ms : list jmsg) (b : bytes),
+  (batch = true \/ length ms <> 1%nat) ->
+  Forall (msg_rt_at' 1) ms -> enc_msgs batch ms = Some b ->
+  parse_msgs b = InMsgs true (map (fun m => canon (norm m)) ms) /\
+  parse_requests b = Parsed (map (fun m => to_parsed (canon (norm m))) ms).
+Proof. exact parse_back_batch'. Qed.
+Print Assumptions c13_parse_back_batch_null_ids.
+
+(* a client whose params value marshals to null writes "params":null; it parses back as absent *)
+Theorem c13_params_null_is_absent : forall (m : jmsg) (b : bytes),
+  msg_rt' m -> j_method m <> [] -> j_params m = null_bytes -> enc_msg m = Some b ->
+  (exists pre, b = pre ++ s_params ++ null_bytes ++ [125]) /\
+  parse_member b = canon (set_params [] m) /\ j_params (parse_member b) = [] /\
+  parse_msgs b = InMsgs false [canon (set_params [] m)].
+Proof. exact params_null_is_absent. Qed.
+Print Assumptions c13_params_null_is_absent.
+
+(* client batches (flag unset) with zero or several members are arrays too *)
+Theorem c13_parse_back_batch_flag : forall (ms : list jmsg) (b : bytes), length ms <> 1%nat ->
+  Forall (msg_rt_at' 1) ms -> enc_msgs false ms = Some b ->
+  enc_msgs true ms = Some b /\
+  parse_msgs b = InMsgs true (map (fun m => canon (norm m)) ms) /\
+  parse_requests b = Parsed (map (fun m => to_parsed (canon (norm m))) ms).
+Proof. exact parse_back_batch_flag. Qed.
+Print Assumptions c13_parse_back_batch_flag.
+
+(* -- valid JSON, explicitly (Json.valid = json.Valid: the independent validator) ---------------- *)
+
+Theorem c13_valid_json : forall (m : jmsg) (b : bytes), msg_rt' m -> enc_msg m = Some b -> Json.valid b = true.
+Proof. exact valid_json_msg. Qed.
+Print Assumptions c13_valid_json.
+
+Theorem c13_valid_json_batch : forall (batch : bool) (ms : list jmsg) (b : bytes),
+  Forall (msg_rt_at' 1) ms -> enc_msgs batch ms = Some b -> Json.valid b = true.
+Proof. exact valid_json_msgs. Qed.
+Print Assumptions c13_valid_json_batch.
+
+(* what json.Marshal(RawMessage) / json.Compact returns is one tight JSON value ... *)
+Theorem c13_compact_is_tight : forall p q : bytes, compact p = Some q -> tight_at 0 q = true /\ Json.valid q = true.
+Proof. exact (fun p q H => conj (compact_tight p q H) (compact_valid p q H)). Qed.
+Print Assumptions c13_compact_is_tight.
+
+(* ... valid d containers down as long as its nesting depth leaves room (limit 10000, envelope counted) *)
+Theorem c13_nesting_bound : forall (s : bytes) (d : N),
+  tight_at 0 s = true -> nest s + d <= max_depth -> tight_at d s = true.
+Proof. exact tight_shift. Qed.
+Print Assumptions c13_nesting_bound.
+
+(* on the single-line domain, under the nesting bound: produced, valid JSON, one line, valid UTF-8 *)
+Theorem c13_valid_json_ok : forall (batch : bool) (ms : list jmsg), Forall msg_ok' ms -> Forall (nest_ok 1) ms ->
+  exists b, enc_msgs batch ms = Some b /\ Json.valid b = true /\ (forall c, In c b -> 32 <= c) /\ valid_utf8 b = true.
+Proof. exact valid_json_ok. Qed.
+Print Assumptions c13_valid_json_ok.
+
+(* every id the member parser accepts (every id a server can echo) is null, a string or a number literal *)
+Theorem c13_ids_echoed_are_literals : forall data : bytes,
+  let i := j_id (parse_member data) in
+  i = [] \/ i = null_bytes \/ is_str_lit i = true \/ is_num_lit i = true.
+Proof. exact ids_echoed_are_literals. Qed.
+Print Assumptions c13_ids_echoed_are_literals.
+
+(* -- bridge replies ------------------------------------------------------------------------------ *)
+
+(* jhttp marshalError: the reply to a statically invalid member *)
+Theorem c13_bridge_error_reply : forall (r : parsed_request) (e : werr) (b : bytes),
+  pr_error r = Some e -> (pr_id r = [] \/ id_rt' (pr_id r)) -> err_rt_at 1 e -> bridge_marshal_error r = Some b ->
+  Json.valid b = true /\
+  parse_member b = canon (bridge_err_msg r e) /\ parse_msgs b = InMsgs false [canon (bridge_err_msg r e)] /\
+  j_id (parse_member b) = (if beq (pr_id r) [] then null_bytes else pr_id r) /\
+  j_error (parse_member b) = j_error (canon (bridge_err_msg r e)) /\
+  (valid_utf8 (pr_id r) = true -> err_sendable e -> (forall c, In c b -> 32 <= c) /\ valid_utf8 b = true).
+Proof. exact bridge_error_reply. Qed.
+Print Assumptions c13_bridge_error_reply.
+
+(* ... for every member ParseRequests flags, whatever the input *)
+Theorem c13_bridge_error_reply_parsed : forall (data : bytes) (rs : list parsed_request) (r : parsed_request) (e : werr),
+  parse_requests data = Parsed rs -> In r rs -> pr_error r = Some e ->
+  exists b, bridge_marshal_error r = Some b /\ Json.valid b = true /\
+    parse_member b = canon (bridge_err_msg r e) /\ parse_msgs b = InMsgs false [canon (bridge_err_msg r e)] /\
+    j_id (parse_member b) = (if beq (pr_id r) [] then null_bytes else pr_id r) /\
+    (valid_utf8 (pr_id r) = true -> we_data e = [] -> (forall c, In c b -> 32 <= c) /\ valid_utf8 b = true).
+Proof. exact bridge_error_reply_parsed. Qed.
+Print Assumptions c13_bridge_error_reply_parsed.
+
+(* -- ParseRequests: one entry per batch member, in order, tied to the JSON value ------------------ *)
+
+Theorem c13_member_correspondence : forall (s : bytes) (xs : list json), parse s = Some (JArr xs) ->
+  exists raws, split_msgs s = Some (true, raws) /\ Forall2 (fun r x => parse r = Some x) raws xs.
+Proof. exact member_correspondence. Qed.
+Print Assumptions c13_member_correspondence.
+
+Theorem c13_member_correspondence_single : forall (s : bytes) (x : json), parse s = Some x -> (forall xs, x <> JArr xs) ->
+  exists raw, split_msgs s = Some (false, [raw]) /\ parse raw = Some x.
+Proof. exact member_correspondence_single. Qed.
+Print Assumptions c13_member_correspondence_single.
+
+(* -- JSON-equality: compaction (json.Compact, json.Marshal of a RawMessage) keeps the VALUE ------- *)
+
+Theorem c13_compact_json_equal : forall p q : bytes, compact p = Some q -> parse q = parse p.
+Proof. exact compact_parse. Qed.
+Print Assumptions c13_compact_json_equal.
+
+Theorem c13_html_escape_keeps_string : forall b : bytes, body_okb b = true -> unquote (html_esc b) = unquote b.
+Proof. exact unquote_html_esc. Qed.
+Print Assumptions c13_html_escape_keeps_string.
+
+Theorem c13_error_data_json_equal : forall (m : jmsg) (b : bytes) (e : werr), msg_rt' m -> enc_msg m = Some b ->
+  j_error m = Some e -> j_method m = [] -> j_result m = [] ->
+  exists e', j_error (parse_member b) = Some e' /\ we_code e' = we_code e /\
+             (valid_utf8 (we_msg e) = true -> we_msg e' = we_msg e) /\
+             (we_data e = [] -> we_data e' = []) /\
+             (we_data e <> [] -> we_data e' <> [] /\ parse (we_data e') = parse (we_data e) /\ parse (we_data e) <> None).
+Proof. exact error_data_json_equal. Qed.
+Print Assumptions c13_error_data_json_equal.
+
+(* -- "every message the library emits": the transition models linked to the encoder (wire/WireLink.v) -- *)
+
+(* what the encoder writes for a non-empty list of messages is one complete JSON-RPC message: a JSON
+   object or a non-empty array of objects (also C10's "whole messages", at byte level) *)
+Theorem c13_emitted_record_is_message : forall (batch : bool) (ms : list jmsg) (b : bytes),
+  ms <> [] -> Forall (msg_rt_at' 1) ms -> enc_msgs batch ms = Some b ->
+  is_message_json b /\ Json.valid b = true /\
+  parse_msgs b = InMsgs (batch || (1 <? length ms)%nat) (map (fun m => canon (norm m)) ms).
+Proof. exact msgs_message_json. Qed.
+Print Assumptions c13_emitted_record_is_message.
+
+(* server responses: every OSend of every window of every reachable state *)
+Theorem c13_server_sends_messages : forall wild c s l s' os ok b rs,
+  SrvLemmas.reach c s -> SrvModel.step s l = Some (s', os) -> In (SrvModel.OSend ok b rs) os ->
+  rs <> [] /\
+  (Forall (rsp_rt wild) rs ->
+   exists bytes, enc_msgs b (map (jmsg_of_rsp wild) rs) = Some bytes /\
+     is_message_json bytes /\ Json.valid bytes = true /\
+     parse_msgs bytes = InMsgs (b || (1 <? length rs)%nat) (map (fun r => canon (jmsg_of_rsp wild r)) rs)).
+Proof. exact srv_send_bytes. Qed.
+Print Assumptions c13_server_sends_messages.
+
+(* server pushes: the id is absent (Notify) or a decimal number literal (Callback) *)
+Theorem c13_server_pushes_messages : forall s l s' os ok id m p,
+  SrvModel.step s l = Some (s', os) -> In (SrvModel.OSendReq ok id m p) os ->
+  (id = [] \/ is_num_lit id = true) /\
+  (req_rt 0 m p ->
+   exists bytes, enc_msg (jmsg_of_req id m p) = Some bytes /\ is_message_json bytes /\ Json.valid bytes = true /\
+     parse_msgs bytes = InMsgs false [canon (norm (jmsg_of_req id m p))]).
+Proof. exact srv_sendreq_bytes. Qed.
+Print Assumptions c13_server_pushes_messages.
+
+(* client requests and batches: at least one member, flag = "not exactly one", ids absent or number literals *)
+Theorem c13_client_sends_messages : forall c s l s' os ok batch ms,
+  CliLemmas.reach c s -> CliModel.step s l = Some (s', os) -> In (CliModel.OSendReq ok batch ms) os ->
+  ms <> [] /\ batch = negb (length ms =? 1)%nat /\
+  Forall (fun mem => fst (fst mem) = [] \/ is_num_lit (fst (fst mem)) = true) ms /\
+  (Forall (fun mem => req_rt 1 (snd (fst mem)) (snd mem)) ms ->
+   exists bytes, enc_msgs batch (map jmsg_of_mem ms) = Some bytes /\
+     is_message_json bytes /\ Json.valid bytes = true /\
+     parse_msgs bytes = InMsgs batch (map (fun mem => canon (norm (jmsg_of_mem mem))) ms)).
+Proof. exact cli_sendreq_bytes. Qed.
+Print Assumptions c13_client_sends_messages.
+
+(* client replies to server callbacks *)
+Theorem c13_client_callback_replies : forall s l s' os ok id o,
+  CliModel.step s l = Some (s', os) -> In (CliModel.OSendRsp ok id o) os ->
+  id_rt' id -> cbout_rt o ->
+  exists bytes, enc_msg (jmsg_of_cbout id o) = Some bytes /\ is_message_json bytes /\ Json.valid bytes = true /\
+    parse_msgs bytes = InMsgs false [canon (jmsg_of_cbout id o)].
+Proof. exact cli_sendrsp_bytes. Qed.
+Print Assumptions c13_client_callback_replies.
+
+(* -- bridge bodies (wire/WireBridge.v): json.Marshal of a Response = compaction of what the encoder writes;
+      writeJSON = compaction of one reply, or an array of compacted replies ------------------------------- *)
+
+Theorem c13_compact_keeps_utf8 : forall p q : bytes, compact p = Some q -> valid_utf8 p = true -> valid_utf8 q = true.
+Proof. exact ErrsMore.compact_valid_utf8. Qed.
+Print Assumptions c13_compact_keeps_utf8.
+
+Theorem c13_bridge_member_reply : forall id err result t,
+  let m := {| j_id := id; j_method := []; j_params := []; j_error := err; j_result := result; j_err := None |} in
+  msg_rt_at' 1 m -> response_marshal id err result = Some t ->
+  exists t', bridge_member_response id err result = Some t' /\
+    tight_at 1 t' = true /\ no_ctl t' = true /\ parse t' = parse t /\ parse_member t = canon m /\
+    (msg_ok' m -> valid_utf8 t' = true).
+Proof. exact bridge_member_reply. Qed.
+Print Assumptions c13_bridge_member_reply.
+
+Theorem c13_bridge_body_reply : forall msgs : list bytes, msgs <> [] -> Forall (fun m => tight_at 1 m = true) msgs ->
+  exists body, bridge_body msgs = Some body /\ no_ctl body = true /\ Json.valid body = true /\
+    (Forall (fun m => valid_utf8 m = true) msgs -> valid_utf8 body = true) /\
+    match msgs with
+    | [m] => parse body = parse m
+    | _ => exists xs, parse body = Some (JArr xs) /\ Forall2 (fun m x => parse m = Some x) msgs xs
+    end.
+Proof. exact bridge_body_reply. Qed.
+Print Assumptions c13_bridge_body_reply.
+
+(* finding (benign): an id holding < > & U+2028 U+2029 comes back JSON-equal, not byte-equal *)
+Theorem c13_bridge_rewrites_html_ids :
+  exists t t', response_marshal [34; 60; 34] None [49] = Some t /\ bridge_member_response [34; 60; 34] None [49] = Some t' /\
+    t <> t' /\ parse t' = parse t /\
+    j_id (parse_member t) = [34; 60; 34] /\ j_id (parse_member t') = [34; 92; 117; 48; 48; 51; 99; 34] /\
+    parse [34; 92; 117; 48; 48; 51; 99; 34] = parse [34; 60; 34].
+Proof. exact bridge_rewrites_html_ids. Qed.
+Print Assumptions c13_bridge_rewrites_html_ids.
